@@ -110,23 +110,23 @@ OUT_VECS = [
 ]
 # local vectors: declaration, element write / increment / read -> struct vxvec operations (c15.h)
 LOCAL_DECLS = [
-    Sub(r"std::vector<std::size_t>\s+(\w+)\(([^;]+?),\s*([^;,]+)\);", r"struct vxvec \1 = vxvec_make(\2, \3);", "+"),
-    Sub(r"std::vector<std::vector<std::size_t>>\s+(\w+)\(([^;]+)\);", r"struct vxvec2 \1 = vxvec2_make(\2);", None),
+    Sub(r"std::vector<std::size_t>\s+(\w+)\(([^;]+?),\s*([^;,]+)\);", r"struct vxvec \1 = VXVEC_MAKE(\2, \3);", "+"),
+    Sub(r"std::vector<std::vector<std::size_t>>\s+(\w+)\(([^;]+)\);", r"struct vxvec2 \1 = VXVEC2_MAKE(\2);", None),
 ]
 
 
 def locvec(name, writes="+", incs=None, pre_incs=None):
     return [
-        Index(name, "vxvec_set(&%s, {0}, {s1});" % name, suffix=r"\s*=(?!=)\s*([^;]+);", n=writes),
-        Index(name, "vxvec_inc(&%s, {0})" % name, suffix=r"\s*\+\+", n=incs),
-        Sub(r"\+\+\s*%s\[([^\[\]]+)\]" % name, r"vxvec_inc(&%s, \1)" % name, pre_incs),
-        Index(name, "vxvec_get(&%s, {0})" % name),
+        Index(name, "VXVEC_SET(%s, {0}, {s1});" % name, suffix=r"\s*=(?!=)\s*([^;]+);", n=writes),
+        Index(name, "VXVEC_INC(%s, {0})" % name, suffix=r"\s*\+\+", n=incs),
+        Sub(r"\+\+\s*%s\[([^\[\]]+)\]" % name, r"VXVEC_INC(%s, \1)" % name, pre_incs),
+        Index(name, "VXVEC_GET(%s, {0})" % name),
     ]
 
 
 PU_INDEXES = [
-    Index("pu_indexes", "vxvec2_push(&pu_indexes, {0}, {a0})", suffix=r"\.push_back\s*\("),
-    Index("pu_indexes", "vxvec2_get(&pu_indexes, {0}, {1})"),
+    Index("pu_indexes", "VXVEC2_PUSH(pu_indexes, {0}, {a0})", suffix=r"\.push_back\s*\("),
+    Index("pu_indexes", "VXVEC2_GET(pu_indexes, {0}, {1})"),
 ]
 
 HELPERS = {
